@@ -1,4 +1,5 @@
 import GohtVerif.Proofs.C02
+import GohtVerif.Proofs.Lemmas.GoLit
 /-! # C04 — literal template content is reproduced exactly and cannot alter generated code
 
 Static content reaches the generated file through `quoteBody` (the model of `strconv.Quote` minus
@@ -32,7 +33,26 @@ theorem escaped_text (fuel : Nat) (c : Ctx) (t : Tok) (buf : Buf) (h : t.typ = .
     execNode (fuel+1) c (.text t) buf = .ok (htmlEscape t.lit :: buf) := by
   simp [execNode, h, hu]
 
--- PLANNED: goLitDecode (quoteBody s) = some s for every byte string (Go interpreted-string-literal semantics), and litSafe (quoteBody s): no unescaped quote, backslash or newline — "cannot terminate, alter or inject"
+/-- **Static content cannot terminate, alter or inject into the generated code** — every static
+splice site writes `quoteBody x` between the double quotes of a Go string literal (`goLiteral`, the
+model of `strconv.Quote` minus its quotes, with the toolchain's `IsPrint` table). Go reads that body
+back as exactly `x`: the literal is not closed early (`litDecode` fails on an unescaped quote or line
+break), no escape is malformed, and no byte is changed — for every byte string, valid UTF-8 or not. -/
+theorem go_literal_roundtrip (x : GoStr) : litDecode (quoteBody x) = some x := quote_roundtrip isPrintHi x
+
+/-- an escaped position: the literal evaluates to `htmlEscape x`, which entity-decodes to `x` -/
+theorem escaped_site_roundtrip (x : GoStr) :
+    (litDecode (quoteBody (htmlEscape x))).map C02.unesc = some x := by
+  rw [go_literal_roundtrip]; simp [C02.unesc_htmlEscape]
+
+/-- a concrete body: quote, backslash, line feed, `é`, a byte that is not UTF-8, NO-BREAK SPACE (not printable) -/
+example : quoteBody [34, 92, 10, 0xC3, 0xA9, 0xFF, 0xC2, 0xA0] =
+    [92, 34, 92, 92, 92, 110, 0xC3, 0xA9, 92, 120, 102, 102, 92, 117, 48, 48, 97, 48] := by decide +kernel
+example : litDecode [92, 34, 92, 92, 92, 110, 0xC3, 0xA9, 92, 120, 102, 102, 92, 117, 48, 48, 97, 48] =
+    some [34, 92, 10, 0xC3, 0xA9, 0xFF, 0xC2, 0xA0] := by decide +kernel
+/-- what the decoder refuses: a body that would close the literal, or break the line -/
+example : litDecode [97, 34, 98] = none ∧ litDecode [97, 10] = none ∧ litDecode [92] = none ∧ litDecode [92, 113] = none := by decide +kernel
+
 -- PLANNED: per-site theorem for each static position k: the chunk spliced into the Go literal is quoteBody (…)
 -- KNOWN (recorded finding): content containing the whitespace-marker sequences is eaten by the eraser
 
